@@ -505,6 +505,221 @@ def handleFerr (how : String) (depth : Nat) (inner : Option (Nat × Bytes × Byt
         | _ => [("status-in-source-chain-is-found", false)]
   (join model, verdict vd)
 
+/-- a unary client has ONE map for response headers and OK trailers.  Every entry of both must be
+there; the clause is evaluated in parts so that finding C08-F3 (a response-header entry whose name
+also occurs in the trailers is replaced by the trailers' values) is told apart from any other loss. -/
+def okMergeClauses (cr sentResp sentSt : List Row) : List (String × Bool) :=
+  let stNames := sentSt.map (fun r => r.2.1)
+  let respNames := sentResp.map (fun r => r.2.1)
+  let got := nonProtocol cr
+  let both (rows : List Row) := rows.filter (fun r => stNames.contains r.2.1 && respNames.contains r.2.1)
+  let onlyResp (rows : List Row) := rows.filter (fun r => !stNames.contains r.2.1)
+  let onlySt (rows : List Row) := rows.filter (fun r => !respNames.contains r.2.1)
+  [("client-sees-response-metadata", sameRows (onlyResp got) (onlyResp sentResp)),
+   ("client-sees-trailer-metadata", sameRows (onlySt got) (onlySt sentSt)),
+   ("client-sees-trailer-metadata-under-names-also-in-response-headers", (both sentSt).all (fun r => (both got).contains r)),
+   ("client-sees-response-metadata-under-names-also-in-trailers", sameRows (both got) (both sentResp ++ both sentSt))]
+
+/-- the error twin (finding C08-F1): status metadata and response headers in ONE map -/
+def errMergeClauses (cr sentResp sentSt : List Row) : List (String × Bool) :=
+  let respNames := sentResp.map (fun r => r.2.1)
+  let stNames := sentSt.map (fun r => r.2.1)
+  let underSt := (nonProtocol cr).filter (fun r => stNames.contains r.2.1)
+  let only (rows : List Row) := rows.filter (fun r => !respNames.contains r.2.1)
+  let both (rows : List Row) := rows.filter (fun r => respNames.contains r.2.1)
+  [("client-sees-status-metadata", sameRows (only underSt) (only sentSt)),
+   ("client-sees-status-metadata-under-names-also-in-response-headers", sameRows (both underSt) (both sentSt))]
+
+def GRPC_STATUS : Bytes := HMap.name "grpc-status"
+
+/-! ### a peer that is not tonic (`peer`) -/
+
+def custom (m : HMap) : List Row := nonProtocol (specView m)
+
+def handlePeerCli (shape : String) (h : HMap) (nmsg : Nat) (t? : Option HMap) (obs : List String) : String × String :=
+  let v := Variant.fixed
+  let endS := Status.streamEnd v t?.toList 200
+  let model : List String := ["peer", "client"] ++
+    (if shape == "u" then
+      match nmsg, endS with
+      | 0, .err s => "err" :: renderSt v { s with metadata := merge s.metadata h }
+      | 0, .finished _ => ["err", "13", hex (Ascii.ofString "Missing response message."), "x", "0"]
+      | _ + 1, .err s => "err" :: renderSt v s
+      | _ + 1, .finished (some t) => "ok" :: renderRows (typedView v (merge h t))
+      | _ + 1, .finished none => "ok" :: renderRows (typedView v h)
+      | _, .panic => ["panic"]
+    else
+      let tail := match endS with
+        | .finished (some t) => "end" :: "some" :: renderRows (typedView v t)
+        | .finished none => ["end", "none"]
+        | .err s => "err" :: renderSt v s
+        | .panic => ["panic"]
+      ("ok" :: renderRows (typedView v h)) ++ ["msgs", toString nmsg] ++ ("then" :: tail))
+  -- oracle: what the peer put under names of its own choosing must be what the typed view shows
+  let code? : Option Bytes := t?.bind (fun t => HMap.get GRPC_STATUS t)
+  let sentT : List Row := match t? with | some t => custom t | none => []
+  let sentH := custom h
+  let isOk := code? == some [48]
+  let isErr := match code? with | some c => c != [48] | none => false
+  let vd : List (String × Bool) := match obs with
+    | "peer" :: "client" :: rest =>
+      if shape == "u" then
+        match rest with
+        | "ok" :: rows =>
+          (match parseRows rows with
+            | some (cr, []) => ("a-call-that-failed-fails", !isErr) :: (if isOk then okMergeClauses cr sentH sentT else [])
+            | _ => [("observed-parses", false)])
+        | "err" :: _ :: _ :: _ :: rows =>
+          (match parseRows rows with
+            | some (cr, []) =>
+              if !isErr then [("a-call-that-succeeded-succeeds", !(isOk && nmsg ≥ 1))]
+              else if nmsg == 0 then errMergeClauses cr sentH sentT
+              else [("client-sees-status-metadata", sameRows (nonProtocol cr) sentT)]
+            | _ => [("observed-parses", false)])
+        | _ => [("observed-parses", false)]
+      else
+        match rest with
+        | "ok" :: more =>
+          (match splitOn1 "msgs" more with
+            | some (headT, n :: "then" :: tailT) =>
+              (match parseRows headT with
+                | some (hr, []) =>
+                  [("client-sees-response-metadata", sameRows (nonProtocol hr) sentH),
+                   ("client-sees-every-message", n == toString nmsg),
+                   ("client-sees-trailer-metadata", match tailT with
+                      | "end" :: "some" :: rows => (match parseRows rows with | some (tr, []) => !isErr && sameRows (nonProtocol tr) sentT | _ => false)
+                      | "end" :: _ => !isErr && sentT.isEmpty
+                      | "err" :: _ :: _ :: _ :: rows => (match parseRows rows with | some (tr, []) => !isOk && (!isErr || sameRows (nonProtocol tr) sentT) | _ => false)
+                      | _ => false)]
+                | _ => [("observed-parses", false)])
+            | _ => [("observed-parses", false)])
+        | _ => [("streaming-call-starts", false)]
+    | _ => [("observed-parses", false)]
+  (join model, verdict vd)
+
+def handlePeerSrv (shape : String) (h : HMap) (t? : Option HMap) (obs : List String) : String × String :=
+  let v := Variant.fixed
+  let model : List String :=
+    if shape == "u" then
+      ("srv" :: renderRows (typedView v (match t? with | some t => merge h t | none => h))) ++ ["client", "0"]
+    else
+      ("srv" :: renderRows (typedView v h)) ++ (match t? with
+        | some t => "tr" :: "some" :: renderRows (typedView v t)
+        | none => ["tr", "none"]) ++ ["client", "0"]
+  let sentH := custom h
+  let sentT : List Row := match t? with | some t => custom t | none => []
+  let tNames := sentT.map (fun r => r.2.1)
+  let hNames := sentH.map (fun r => r.2.1)
+  let vd : List (String × Bool) := match obs with
+    | "srv" :: rest =>
+      (match splitOn1 "client" rest with
+        | some (srvT, code) =>
+          ("call-succeeds", code == ["0"]) ::
+          (if shape == "u" then
+            match parseRows srvT with
+            | some (rows, []) =>
+              -- names the trailers share with the headers are the merge of C08-F1 / F3 (not generated)
+              [("server-sees-request-metadata", sameRows ((nonProtocol rows).filter (fun r => !tNames.contains r.2.1)) (sentH.filter (fun r => !tNames.contains r.2.1))),
+               ("server-sees-request-trailer-metadata", sameRows ((nonProtocol rows).filter (fun r => !hNames.contains r.2.1)) (sentT.filter (fun r => !hNames.contains r.2.1)))]
+            | _ => [("observed-parses", false)]
+          else
+            match splitOn1 "tr" srvT with
+            | some (headT, trT) =>
+              (match parseRows headT with
+                | some (rows, []) =>
+                  [("server-sees-request-metadata", sameRows (nonProtocol rows) sentH),
+                   ("server-sees-request-trailer-metadata", match trT with
+                      | "some" :: tr => (match parseRows tr with | some (trr, []) => sameRows (nonProtocol trr) sentT | _ => false)
+                      | _ => t?.isNone)]
+                | _ => [("observed-parses", false)])
+            | none => [("observed-parses", false)])
+        | none => [("observed-parses", false)])
+    | _ => [("observed-parses", false)]
+  (join model, verdict vd)
+
+/-! ### dimension audit: every API route, call shape, interceptor and transport (`e2x`)
+
+The nine knobs select HOW the same metadata is attached and carried (see harness/src/c08_dim.rs);
+the prediction is the plain `e2e` model's — the knobs must be invisible — except where a knob adds
+an entry of its own (`rq = 5`: `set_timeout`) or selects a path `e2e` does not have (a unary client
+that receives a message and then trailers carrying metadata). -/
+
+def parseKnobs (t : String) : Option (List Nat) :=
+  let ps := t.splitOn "."
+  let ns := ps.filterMap nat?
+  if ns.length == 9 && ps.length == 9 then some ns else none
+
+def GRPC_TIMEOUT : Bytes := HMap.name "grpc-timeout"
+
+def handleE2X (kn : List Nat) (mode : String) (code : Nat) (msg det : Bytes) (req0 resp stmd : List (Enc × Bytes × Bytes))
+    (obs : List String) : String × String :=
+  let v := Variant.fixed
+  let rq := kn.getD 2 0
+  let k := kn.getD 7 0
+  -- `Request::set_timeout` inserts one more entry (the generator keeps the name out of `req`)
+  let req := if rq == 5 then req0 ++ [(Enc.ascii, GRPC_TIMEOUT, Ascii.ofString "3600000m")] else req0
+  if rq == 5 && req0.any (fun e => (e.2.1.map Ascii.toLower).take 12 == GRPC_TIMEOUT) then bad else
+  if !(mode == "umix" && k ≥ 1) then handleE2E mode code msg det req resp stmd obs else
+  let reqmd := buildTyped v req
+  let respmd := buildTyped v resp
+  let st : St := { code := Code.ofNum code, message := msg, details := det, metadata := buildTyped v stmd }
+  let reqwire := requestWire reqmd
+  let srv := typedView v reqwire
+  let h := responseWire respmd
+  let cl : List String := match Status.toHeaderMap v st with
+    | .error e => "err" :: renderSt v e
+    | .ok t => match Status.streamEnd v [t] 200 with
+      -- the message has been taken: `body.trailers().await?` hands the status on as it is
+      | .err s => "err" :: renderSt v s
+      -- OK trailers: merged over the response headers
+      | .finished (some t) => "ok" :: renderRows (typedView v (clientUnaryOkMetadata respmd t))
+      | .finished none => ["unmodelled"]
+      | .panic => ["panic"]
+  let model := ("reqwire" :: HMap.render reqwire) ++ ("srv" :: renderRows srv) ++ ("respwire" :: HMap.render h) ++ ("client" :: cl)
+  let sentReq := nonReserved (specAccepted req)
+  let sentResp := nonReserved (specAccepted resp)
+  let sentSt := nonProtocol (specAccepted stmd)
+  let vd : List (String × Bool) :=
+    match splitOn1 "reqwire" obs with
+    | some (_, r0) =>
+      match splitOn1 "srv" r0 with
+      | some (reqwireT, r1) =>
+        match splitOn1 "respwire" r1 with
+        | some (srvT, r2) =>
+          match splitOn1 "client" r2 with
+          | some (respwireT, clientT) =>
+            match HMap.parseRendered reqwireT, parseRows srvT, HMap.parseRendered respwireT with
+            | some (rw, []), some (srvRows, []), some (pw, []) =>
+              let common :=
+                [("request-reserved-names-only-from-protocol", Spec.Metadata.reservedOnlyFromProtocol rw requestOwn),
+                 ("request-wire-carries-custom-entries", sameRows (nonReserved (specView rw)) sentReq),
+                 ("server-sees-request-metadata", sameRows (nonReserved srvRows) sentReq),
+                 ("response-reserved-names-only-from-protocol", Spec.Metadata.reservedOnlyFromProtocol pw responseOwn),
+                 ("response-wire-carries-custom-entries", sameRows (nonReserved (specView pw)) sentResp)]
+              if code != 0 then
+                match clientT with
+                | "err" :: c :: m :: d :: rows =>
+                  match parseRows rows with
+                  | some (cr, []) =>
+                    common ++ [("client-sees-status", c == toString code && m == hex msg && d == hex det),
+                      ("client-sees-status-metadata", sameRows (nonProtocol cr) sentSt)]
+                  | _ => [("observed-parses", false)]
+                | _ => common ++ [("failed-call-fails", false)]
+              else
+                match clientT with
+                | "ok" :: rows =>
+                  match parseRows rows with
+                  | some (cr, []) =>
+                    common ++ okMergeClauses cr (nonProtocol sentResp) sentSt
+                  | _ => [("observed-parses", false)]
+                | _ => common ++ [("successful-call-succeeds", false)]
+            | _, _, _ => [("observed-parses", false)]
+          | none => [("observed-parses", false)]
+        | none => [("observed-parses", false)]
+      | none => [("observed-parses", false)]
+    | none => [("observed-parses", false)]
+  (join model, verdict vd)
+
 def handle (case obs : List String) : String × String :=
   let v := Variant.fixed
   match case with
@@ -692,6 +907,54 @@ def handle (case obs : List String) : String × String :=
     match nat? depth, nat? c, unhex m, unhex d, parseTyped rest with
     | some depth, some c, some m, some d, some (stmd, []) =>
       if c ≤ 16 && ["from", "try", "recover"].contains how then handleFerr how depth (some (c, m, d, stmd)) obs else bad
+    | _, _, _, _, _ => bad
+  | "mapi" :: rest =>
+    match HMap.parse rest with
+    | some (h, []) =>
+      -- oracle and model coincide here (counting): entries, distinct names; every hint brackets the
+      -- real count; capacity calls and clones change nothing; a cleared map is empty and usable
+      let keys := (h.map (·.1)).eraseDups.length
+      let reuse : HMap := [(HMap.name "x-a", [49]), (HMap.name "k-bin", Ascii.ofString "AQI")]
+      let expected := ["len", toString h.length, "keys", toString keys, "empty", if h.isEmpty then "1" else "0",
+        "hints", "1", "cap", "1", "clone", "1", "cleared", "0", "0", "reuse"] ++ renderRows (specView reuse)
+      let field (name : String) : Option String := match splitOn1 name obs with | some (_, x :: _) => some x | _ => none
+      (join expected, verdict [("len-counts-every-value", field "len" == some (toString h.length)),
+        ("keys-len-counts-distinct-names", field "keys" == some (toString keys)),
+        ("is-empty-iff-no-entry", field "empty" == some (if h.isEmpty then "1" else "0")),
+        ("iterator-size-hints-bracket-the-count", field "hints" == some "1"),
+        ("capacity-calls-change-no-entry", field "cap" == some "1"),
+        ("clones-are-independent", field "clone" == some "1"),
+        ("cleared-map-is-empty-and-usable", obs.dropWhile (· != "cleared") == expected.dropWhile (· != "cleared"))])
+    | _ => bad
+  | "peer" :: "cli" :: shape :: rest =>
+    if !["u", "s"].contains shape then bad else
+    match HMap.parse rest with
+    | some (h, [n, "0"]) => (match nat? n with | some n => handlePeerCli shape h n none obs | none => bad)
+    | some (h, n :: "1" :: more) =>
+      (match nat? n, HMap.parse more with
+        | some n, some (t, []) => handlePeerCli shape h n (some t) obs
+        | _, _ => bad)
+    | _ => bad
+  | "peer" :: "srv" :: shape :: rest =>
+    if !["u", "s"].contains shape then bad else
+    match HMap.parse rest with
+    | some (h, ["0"]) => handlePeerSrv shape h none obs
+    | some (h, "1" :: more) =>
+      (match HMap.parse more with
+        | some (t, []) => handlePeerSrv shape h (some t) obs
+        | none => bad
+        | _ => bad)
+    | _ => bad
+  | "e2x" :: kn :: mode :: c :: m :: d :: rest =>
+    match parseKnobs kn, nat? c, unhex m, unhex d, parseTyped rest with
+    | some kn, some c, some m, some d, some (req, r1) =>
+      match parseTyped r1 with
+      | some (resp, r2) =>
+        match parseTyped r2 with
+        | some (stmd, []) =>
+          if c ≤ 16 && ["ok", "err", "sserr", "umix"].contains mode then handleE2X kn mode c m d req resp stmd obs else bad
+        | _ => bad
+      | none => bad
     | _, _, _, _, _ => bad
   | "e2e" :: mode :: c :: m :: d :: rest =>
     match nat? c, unhex m, unhex d, parseTyped rest with
